@@ -2,7 +2,7 @@
 Every generated plotfile is validated under all 16 option combinations x every level limit x
 {fail, nofail}; the verdict and which validation stages actually ran are recorded. Negative
 controls: corruptions strictly above the level limit must not change the verdict."""
-import os, random, itertools
+import os, random, contextlib, itertools
 import numpy as np
 from .. import common, gen, refparse, workload, pools, mutate, strict
 
@@ -54,6 +54,15 @@ def setup():
         setattr(T.Taster, name, mk(orig, name))
 
 
+@contextlib.contextmanager
+def strict_state():
+    """what an embedding program may have configured: floating-point errors raise, warnings are errors"""
+    import warnings
+    with np.errstate(all="raise"), warnings.catch_warnings():
+        warnings.simplefilter("error")
+        yield
+
+
 def run_case(case, work, rec):
     from amr_kitchen.taste import Taster
     rng = random.Random(case["sel_seed"])
@@ -87,6 +96,8 @@ def run_case(case, work, rec):
         if strict.flags(path, coords=True):
             raise RuntimeError("generator wrote a plotfile the strict validator flags: "
                                + str(strict.flags(path, coords=True)))
+    # payloads whose values are all finite (an invalid floating-point operation on NaN / inf is the data's own)
+    finite_payload = "asset" not in case and case["gen"].get("payload", "random") in ("random", "nearconst", "positive")
     limits = [None] + list(range(finest + 1))
     if "asset" in case:
         limits = [None, 0]
@@ -99,11 +110,19 @@ def run_case(case, work, rec):
                          f"boxes_coordinates={bc} limit_level={limit} nofail={nofail}")
                 pools.CTL.reset(mode="inproc", seed=rng.randrange(10 ** 6))
                 before = dict(_ran)
+                # neither the verbosity nor the embedding program's numpy / warnings configuration is part of the
+                # verdict: a quarter of the validations runs with floating-point errors raised and warnings turned
+                # into errors (payloads without NaN / inf only: there an invalid operation is the data's own)
+                vb = rng.choice((0, 0, None, 1, 2, 3))
+                strict_fp = finite_payload and rng.random() < 0.25
                 try:
-                    t = Taster(path, limit_level=limit, binary_headers=bh, binary_shape=bs,
-                               binary_data=bd, boxes_coordinates=bc, nofail=nofail, verbose=0)
-                    good = bool(t)
+                    with (strict_state() if strict_fp else contextlib.nullcontext()):
+                        t = Taster(path, limit_level=limit, binary_headers=bh, binary_shape=bs,
+                                   binary_data=bd, boxes_coordinates=bc, nofail=nofail, verbose=vb)
+                        good = bool(t)
                     exc = None
+                    if strict_fp:
+                        rec.count("validations_with_fp_errors_raised_and_warnings_as_errors")
                 except Exception as e:
                     good, exc = False, f"{type(e).__name__}: {str(e)[:200]}"
                 rec.count("validations")
